@@ -395,19 +395,15 @@ class Param():
             if pk.channel == MISC_CHANNEL and pk.data[0] == MISC_GET_DEFAULT_VALUE:
                 if pk.data[3] == errno.ENOENT:
                     callback(complete_name, None)
-                    self.cf.remove_port_callback(CRTPPort.PARAM, new_packet_cb)
                     return
 
                 default_value, = struct.unpack(element.pytype, pk.data[3:])
                 callback(complete_name, default_value)
-                self.cf.remove_port_callback(CRTPPort.PARAM, new_packet_cb)
-
-        self.cf.add_port_callback(CRTPPort.PARAM, new_packet_cb)
 
         pk = CRTPPacket()
         pk.set_header(CRTPPort.PARAM, MISC_CHANNEL)
         pk.data = struct.pack('<BH', MISC_GET_DEFAULT_VALUE, element.ident)
-        self.param_updater.send_param_misc(pk)
+        self.param_updater.send_param_misc(pk, new_packet_cb)
 
     def persistent_clear(self, complete_name, callback=None):
         """
@@ -425,15 +421,11 @@ class Param():
         def new_packet_cb(pk):
             if pk.channel == MISC_CHANNEL and pk.data[0] == MISC_PERSISTENT_CLEAR:
                 callback(complete_name, pk.data[3] == 0)
-                self.cf.remove_port_callback(CRTPPort.PARAM, new_packet_cb)
-
-        if callback is not None:
-            self.cf.add_port_callback(CRTPPort.PARAM, new_packet_cb)
 
         pk = CRTPPacket()
         pk.set_header(CRTPPort.PARAM, MISC_CHANNEL)
         pk.data = struct.pack('<BH', MISC_PERSISTENT_CLEAR, element.ident)
-        self.param_updater.send_param_misc(pk)
+        self.param_updater.send_param_misc(pk, new_packet_cb if callback is not None else None)
 
     def persistent_store(self, complete_name, callback=None):
         """
@@ -454,15 +446,11 @@ class Param():
         def new_packet_cb(pk):
             if pk.channel == MISC_CHANNEL and pk.data[0] == MISC_PERSISTENT_STORE:
                 callback(complete_name, pk.data[3] == 0)
-                self.cf.remove_port_callback(CRTPPort.PARAM, new_packet_cb)
-
-        if callback is not None:
-            self.cf.add_port_callback(CRTPPort.PARAM, new_packet_cb)
 
         pk = CRTPPacket()
         pk.set_header(CRTPPort.PARAM, MISC_CHANNEL)
         pk.data = struct.pack('<BH', MISC_PERSISTENT_STORE, element.ident)
-        self.param_updater.send_param_misc(pk)
+        self.param_updater.send_param_misc(pk, new_packet_cb if callback is not None else None)
 
     def persistent_get_state(self, complete_name, callback):
         """
@@ -489,7 +477,6 @@ class Param():
             if pk.channel == MISC_CHANNEL and pk.data[0] == MISC_PERSISTENT_GET_STATE:
                 if pk.data[3] == errno.ENOENT:
                     callback(complete_name, None)
-                    self.cf.remove_port_callback(CRTPPort.PARAM, new_packet_cb)
                     return
 
                 is_stored = pk.data[3] == 1
@@ -507,13 +494,11 @@ class Param():
                              stored_value if is_stored else None
                          )
                          )
-                self.cf.remove_port_callback(CRTPPort.PARAM, new_packet_cb)
 
-        self.cf.add_port_callback(CRTPPort.PARAM, new_packet_cb)
         pk = CRTPPacket()
         pk.set_header(CRTPPort.PARAM, MISC_CHANNEL)
         pk.data = struct.pack('<BH', MISC_PERSISTENT_GET_STATE, element.ident)
-        self.param_updater.send_param_misc(pk)
+        self.param_updater.send_param_misc(pk, new_packet_cb)
 
 
 class _ExtendedTypeFetcher(Thread):
@@ -608,6 +593,7 @@ class _ParamUpdater(Thread):
         self.cf.add_port_callback(CRTPPort.PARAM, self._new_packet_cb)
         self._should_close = False
         self._lock_pattern = None
+        self._reply_callback = None
 
     def close(self):
         # First empty the queue from all packets
@@ -629,9 +615,11 @@ class _ParamUpdater(Thread):
         the Crazyflie it will answer with the update param value. """
         self.request_queue.put(pk)
 
-    def send_param_misc(self, pk):
+    def send_param_misc(self, pk, reply_callback=None):
         """Place a param misc request on the queue. When this is sent to
-        the Crazyflie it will answer with the same var_id and command. """
+        the Crazyflie it will answer with the same var_id and command. The
+        answer to this request (and only that) is passed to reply_callback. """
+        pk.reply_callback = reply_callback
         self.request_queue.put(pk)
 
     def _new_packet_cb(self, pk):
@@ -659,8 +647,12 @@ class _ParamUpdater(Thread):
 
             release_pattern = pk.data[:3]
             if self._lock_pattern == release_pattern:
+                reply_callback = self._reply_callback
+                self._reply_callback = None
                 self._lock_pattern = None
                 self.wait_lock.release()
+                if reply_callback is not None:
+                    reply_callback(pk)
 
     def request_param_update(self, var_id):
         """Place a param update request on the queue"""
@@ -682,6 +674,7 @@ class _ParamUpdater(Thread):
                 if self._useV2:
                     if pk.channel == MISC_CHANNEL:
                         self._lock_pattern = pk.data[:3]
+                        self._reply_callback = getattr(pk, 'reply_callback', None)
                     else:
                         self._lock_pattern = pk.data[:2]
 
